@@ -5,7 +5,10 @@ use super::{
     models::{FieldAttributeBuilder, TypeAttributeBuilder},
     TraitHandler,
 };
-use crate::{common::ident_index::IdentOrIndex, Trait};
+use crate::{
+    common::{ident_index::IdentOrIndex, r#type::ungroup},
+    Trait,
+};
 
 pub(crate) struct DerefMutStructHandler;
 
@@ -67,7 +70,7 @@ impl TraitHandler for DerefMutStructHandler {
 
             let field_name = IdentOrIndex::from_ident_with_index(field.ident.as_ref(), index);
 
-            deref_mut_token_stream.extend(if let Type::Reference(_) = &field.ty {
+            deref_mut_token_stream.extend(if let Type::Reference(_) = ungroup(&field.ty) {
                 quote! (self.#field_name)
             } else {
                 quote! (&mut self.#field_name)
